@@ -229,6 +229,16 @@ class UnitBuilder:
                 anchor, body = d[1]
                 pos = self._anchor(fn, loops, anchor, name)
                 fn.insert(pos, '\n' + body + '\n', order=1)
+        for d in directives:
+            if d[0] == 'cut_from':
+                # D3: keep only the prefix of the body up to (not including) the anchored statement; the
+                # function then returns the expression given after `=>`
+                mm = re.match(r'"(.*)"\s*=>\s*(.*)$', d[1], re.S)
+                if not mm:
+                    raise ValueError('%s: bad @cut_from' % origin)
+                s0, _ = fn.find_text(mm.group(1))
+                fn.replace(s0, fn.cb, mm.group(2) + '\n')
+                fired.append('D3 cut_from %r (tail dropped)' % mm.group(1))
         if any(d[0] == 'stub' for d in directives):
             # callee stub: the body is dropped, only the contract is used by callers in this unit
             fn.replace(fn.ob, fn.cb + 1, '{ unimplemented!() }')
@@ -306,7 +316,7 @@ class UnitBuilder:
                 parts = s[1:].split(None, 1)
                 k = parts[0]
                 arg = parts[1] if len(parts) > 1 else ''
-                if k in ('ret', 'sigcheck', 'attr', 'rename', 'rule', 'host', 'stub', 'fingerprint'):
+                if k in ('ret', 'sigcheck', 'attr', 'rename', 'rule', 'host', 'stub', 'fingerprint', 'cut_from'):
                     ds.append((k, arg))
                 elif k == 'loop':
                     a = arg.split()
